@@ -70,6 +70,18 @@ theorem isotope_window :
   decide +kernel
 
 
+/-- the isotope clause of `ADom` is not an assumption for real atoms: `Element.isotope`'s setter only accepts keys of
+    `isotopes_distribution`, and every such key of every element is inside the window of that element's `mdl_isotope` -/
+theorem isotope_in_window_of_table (a : MAtom) (r : ChythonModel.Gen.ElemRow) (hr : r ∈ ChythonModel.Gen.periodicTable)
+    (hiso : ∀ i, a.isotope = some i → i = 0 ∨ i ∈ r.dist.map (·.1)) :
+    ∀ i, isoTruthy a.isotope = some i → r.mdl ≤ i + 8 ∧ i ≤ r.mdl + 8 := by
+  intro i hi
+  obtain ⟨ha, hne⟩ := isoTruthy_some hi
+  rcases hiso i ha with h0 | hmem
+  · exact absurd h0 hne
+  · obtain ⟨k, hk, rfl⟩ := List.mem_map.mp hmem
+    exact (isotope_window r hr).1 k hk
+
 /-- `QueryElement.mdl_isotope` equals `Element.mdl_isotope` for every atomic number (both lookups of the regenerated table) -/
 theorem mdl_tables_agree (z : Nat) : qmdlOf z = mdlOf z :=
   mdl_tables_agree_gen ChythonModel.Gen.periodicTable (fun r hr => (isotope_window r hr).2) z
